@@ -205,6 +205,55 @@ def locs(e):
                              type(e).__name__ + "._get_dependencies")
             except Exception as ex:      # noqa
                 pass
+    rac.section("task-report", "the same expressions registered as the definition of (a) d['t'] and (b) d['n']['t'] -- a target that shares its owner "
+                "with a location the expression reads: the dependencies the manager's task reports for the expression equal the locations inside it "
+                "(owners included, also an owner that encloses the task's own target), and replacing such an owner through its reference by a "
+                "container with other numbers recomputes the dependant", "same builders x 2 targets")
+    import copy as _copy
+    for (bname, _), (fname, fill), tgt in itertools.product(builders(*world()[2:])[0], fillers[:4], ("r['t']", "r['n']['t']")):
+        if bname in ("call.func", "item.owner", "attr.owner"):
+            continue
+        d, m, r, fr = world()
+        d["n"]["t"] = 0.0
+        bl, bsrcs = builders(r, fr)
+        try:
+            e = dict(bl)[bname](fill(r))
+            v0 = e._get_value()
+            float(v0) if not isinstance(v0, tuple) else None
+            tref = eval(tgt, dict(r=r))
+            tref._owner[tref._key] = e
+        except Exception:      # noqa
+            continue
+        want = locs(e)
+        got = m.tasks[tref].dependencies
+        head = PRELUDE + WORLD_SRC + f"d['n']['t'] = 0.0\nX = {FILL[fname]}\ne = {bsrcs[bname]}\n{tgt} = e\n"
+        rac.case(("task-report", bname, fname, tgt), sample=f"{tgt} = {e}")
+        if got != want or not isinstance(got, set):
+            rac.fail(f"task-report {bname} {fname} {tgt}", f"{tgt} = {e}: the task reports dependencies {sorted(map(str, got or []))}, locations inside the expression: {sorted(map(str, want))}",
+                     head + f"got = m.tasks[{tgt}].dependencies\nassert isinstance(got, set) and got == locs(e), (sorted(map(str, got)), sorted(map(str, locs(e))))\n", "ExprTask.__init__")
+            continue
+        for loc in sorted(want, key=str):
+            try:
+                cur = loc._get_value()
+            except Exception:      # noqa
+                continue
+            if not isinstance(cur, (dict, list)):
+                continue
+            new = _copy.deepcopy(cur)
+            for kk in (new if isinstance(new, dict) else range(len(new))):
+                if isinstance(new[kk], float):
+                    new[kk] = new[kk] + 1.0
+            try:
+                loc._owner[loc._key] = new
+                wantv, gotv = e._get_value(), tref._get_value()
+            except Exception as ex:      # noqa
+                rac.fail(f"task-report replace {bname} {fname} {tgt} {loc}", f"{tgt} = {e}; {loc} = {new!r} raised {ex!r}", head + f"{loc} = {new!r}\n", "ExprTask.__init__")
+                continue
+            rac.case(("task-report-replace", bname, fname, tgt, str(loc)), sample=f"{tgt} = {e}; {loc} = {new!r}")
+            if not (gotv == wantv or (gotv != gotv and wantv != wantv)):
+                rac.fail(f"task-report replace {bname} {fname} {tgt} {loc}", f"{tgt} = {e}: after {loc} = {new!r} the dependant holds {gotv!r}, the expression gives {wantv!r}",
+                         head + f"{loc} = {new!r}\nwant = e._get_value(); got = {tgt}._get_value()\nprint(got, want)\nassert got == want or (got != got and want != want), 'dependant not recomputed'\n".replace("d[", "r[", 0),
+                         "ExprTask.__init__")
     if missing:
         rac.section("coverage", "node classes never produced by the builders", "introspection")
         rac.fail("coverage " + ",".join(missing), f"node classes without a slot builder (harness must be extended): {missing}", PRELUDE, None)
